@@ -488,7 +488,20 @@ pub fn run_one_iteration(c: &SchedCampaign, fi: usize, iter_seed: u64, rep: &mut
     let mut ir = Rng::new(iter_seed);
     let case = crate::world::generate(&c.families[fi].params, ir.next());
     let rc = pick_runcfg(&mut ir, case.txs.len(), &c.profiles, c.seq_pct);
-    let plan = FaultPlan::default();
+    // a slow (fault-free) backing database in a quarter of the runs: cache-filling reads then span
+    // commits of the accounts they read (values served are the same with or without latency)
+    let mut plan = FaultPlan::default();
+    if ir.chance(1, 4) {
+        plan.default_latency_us = *ir.pick(&[20u64, 100, 400]);
+        let slots = crate::run::probe_slots(&case);
+        for a in crate::run::probe_addrs(&case) {
+            if ir.chance(1, 3) {
+                for s in &slots {
+                    plan.latency_us.insert(crate::db::Key::Storage(a, *s), *ir.pick(&[300u64, 1000, 2500]));
+                }
+            }
+        }
+    }
     let reference = reference_for(&case, &plan, true, rc.with_reverts);
     let out = run_grevm(&case, &rc, &plan, None);
     let mut violations = Vec::new();
